@@ -185,6 +185,39 @@ theorem residual_bound (H d1 d2 mm : ℝ) (hH : |H| ≤ 1 / 2) (h1 : 17 / 10 ≤
         mul_le_mul hH hk (abs_nonneg _) (by norm_num)
     _ = 1 / 3800 := by norm_num
 
+/-- **Dhuhr's hour angle under the envelope**, end to end on the model: for a day whose interpolation
+    deltas and first hour angle lie in the envelope (two-day RA motion in [1.7°, 2.3°], second difference
+    at most 0.019°, hour angle at the mean transit at most 0.5° - the falsifier evaluates exactly these
+    on the implementation's ephemeris for every case), the model's hour angle at the reported Dhuhr
+    is, modulo whole turns, at most 1/3800° = 0.063 s of time -/
+theorem dhuhr_hour_angle_small (t : TopAstroDay ℝ) (w : Weather ℝ)
+    (hH : |hourAngle t.cur.sid t.cur.ra t.coords.lon (raInterpDeltas t.prev.ra t.cur.ra t.next.ra)
+            (capAngle1 ((t.cur.ra - t.coords.lon - t.cur.sid) / 360))| ≤ 1 / 2)
+    (h1 : 17 / 10 ≤ (raInterpDeltas t.prev.ra t.cur.ra t.next.ra).1)
+    (h1' : (raInterpDeltas t.prev.ra t.cur.ra t.next.ra).1 ≤ 23 / 10)
+    (h2 : |(raInterpDeltas t.prev.ra t.cur.ra t.next.ra).2| ≤ 19 / 1000) :
+    ∃ j : ℤ, |g t.cur.sid t.cur.ra t.coords.lon (raInterpDeltas t.prev.ra t.cur.ra t.next.ra).1
+        (raInterpDeltas t.prev.ra t.cur.ra t.next.ra).2 ((shurDhuhrMagh t w).2.1 / 24) - 360 * j| ≤ 1 / 3800 := by
+  obtain ⟨hm', j, hj⟩ := dhuhr_residual t w
+  refine ⟨j, ?_⟩
+  rw [hj]
+  set d := raInterpDeltas t.prev.ra t.cur.ra t.next.ra with hd
+  set m := capAngle1 ((t.cur.ra - t.coords.lon - t.cur.sid) / 360) with hm
+  set H := hourAngle t.cur.sid t.cur.ra t.coords.lon d m with hHdef
+  set m' := (shurDhuhrMagh t w).2.1 / 24 with hm'def
+  obtain ⟨m0, m1, _⟩ := capAngle1_spec ((t.cur.ra - t.coords.lon - t.cur.sid) / 360)
+  have hHb := abs_le.mp hH
+  have hmm : |(m + m') / 2| ≤ 1001 / 1000 := by
+    rw [abs_le]; rw [hm']; constructor <;> linarith [hHb.1, hHb.2]
+  have hprod : |d.2 * (m + m') / 2| ≤ 1 / 50 := by
+    have : d.2 * (m + m') / 2 = d.2 * ((m + m') / 2) := by ring
+    rw [this, abs_mul]
+    calc |d.2| * |(m + m') / 2| ≤ (19 / 1000) * (1001 / 1000) :=
+          mul_le_mul h2 hmm (abs_nonneg _) (by norm_num)
+      _ ≤ 1 / 50 := by norm_num
+  have := residual_bound H d.1 d.2 (m + m') hH h1 h1' hprod
+  exact this
+
 /-- **right-ascension wrap** (proved in Thm/C13 `ra_wrap_lift`; restated here because C01 depends on it):
     the interpolation deltas are those of the unwrapped sequence -/
 theorem ra_wrap_lift (P C N : ℝ) (hC0 : 0 ≤ C) (hC1 : C < 360)
